@@ -13,6 +13,9 @@ CLAIMED = {
  "C18": ("deterministic simulation: faulty-link push orders x consumer operations on a simulated clock vs. executable reference buffer model (pointer identity), plus the interceptor read path; real-time watchdog for CPU loops",
          "Seeded exploration: push orders derived from a sender stream through a lossy/duplicating/reordering link (incl. the 2^16 wrap) interleaved with Pop/PopAtSequence/PopAtTimestamp/Peek/PeekAtSequence/SetPlayoutHead/Clear for all minimum-start counts; every result is compared operation by operation with a reference model (which packet objects are buffered, which were returned, acceptable playout heads); the ReceiverInterceptor read path is checked for byte-exact, consecutive emission; runs that never finish are caught by a watchdog and reported as hangs.",
          "Trusted: the reference model (it accepts either behaviour where the statement is silent: head after Clear / after PopAtSequence). The JitterBuffer API is driven from one goroutine (its own mutex serialises it; concurrent use is covered by C10). Sampling, not proof.", "DESIGN.md §5 C18"),
+ "C07": ("deterministic simulation: seeded send histories + tick placement + clock jumps under the simrt scheduler vs. reference sender model (version window), exact NTP conversion",
+         "Seeded exploration of the real SenderInterceptor: 1-3 streams and clock rates, sequence/timestamp wraps, multi-packet frames, out-of-order and gapped sends, pauses up to hours on the fake clock, failing downstream writer, both use-latest-packet settings, report ticks from the real ticker or placed at chosen instants (colliding with sends), jumps of the supplied clock; every sender report must equal the reference (packet count, octet count, NTP = exact integer conversion of the instant the library sampled, RTP time = reference timestamp + floor(elapsed x rate) +-1) at some version inside the window the reporting goroutine could have observed.",
+         "Trusted: pion/rtcp SenderReport type (fields read directly, no wire round trip), the reference model; one writer goroutine per stream (same-stream concurrency is C10). Packet-count wrap (2^32 packets) is out of reach. Sampling, not proof.", "DESIGN.md §5 C07"),
 }
 NA = {
  "C20": "pure single-threaded functions of their inputs (sequence unwrapping, NTP conversion): no schedule, clock, fault, I/O or second party for a simulator to control; deciding them is input enumeration/property-based testing, a different technique (they run as real code inside the C05/C07/C08/C09/C19 scenarios).",
